@@ -23,7 +23,7 @@ import (
 // pairs in the thorough tier), raw non-JSON bodies, HTTP statuses; composite sync / finalize / customize.
 
 type c13Cfg struct {
-	Mode   int // 0 non-rolling; 1 rolling, one revision; 2 rolling, parent spec edited (two revisions, parallel hook calls); 3 finalizing
+	Mode   int // 0 non-rolling; 1 rolling, one revision; 2 rolling, parent spec edited (two revisions, parallel hook calls); 3 finalizing; 4 rolling, two revisions, the rollout is waiting for a child of the latest revision
 	GenSel bool
 	Strict bool
 	Target string // which hook is mutated: "sync" (or finalize in mode 3), "customize"
@@ -61,6 +61,15 @@ func c13ValidCustomize() kit.M {
 	}}}
 }
 
+// c13First: the extra child of the waiting-rollout mode.
+func c13First(genSel bool) kit.M {
+	o := kit.Obj(kit.Leaf, "", "first")
+	if !genSel {
+		kit.Labels(o, "app", "x")
+	}
+	return o
+}
+
 func c13Rejected(err error) bool {
 	if err == nil {
 		return false
@@ -70,6 +79,7 @@ func c13Rejected(err error) bool {
 }
 
 var c13Outcome string
+var c13Debug bool
 
 func c13Run(c c13Case) []mc.Finding {
 	var f []mc.Finding
@@ -77,7 +87,7 @@ func c13Run(c c13Case) []mc.Finding {
 		f = append(f, mc.Finding{Key: "C13:" + key, Msg: fmt.Sprintf("%+v %s status=%d body=%s: ", c.Cfg, c.What, c.Status, c.Body) + fmt.Sprintf(format, a...)})
 	}
 	method := v1alpha1.ChildUpdateInPlace
-	if c.Cfg.Mode == 1 || c.Cfg.Mode == 2 {
+	if c.Cfg.Mode == 1 || c.Cfg.Mode == 2 || c.Cfg.Mode == 4 {
 		method = v1alpha1.ChildUpdateRollingInPlace
 	}
 	w := newCWorld(ccOpt{parent: kit.Thing, children: []*sim.Kind{kit.Leaf}, generateSel: c.Cfg.GenSel, strict: c.Cfg.Strict,
@@ -106,7 +116,31 @@ func c13Run(c c13Case) []mc.Finding {
 	phase := 0
 	mainHook := func(hc *world.HookCall) (int, http.Header, []byte, error) {
 		if phase == 0 {
-			return 200, nil, validOld, nil // children a + old: "old" is not in later answers, so accepting one deletes it
+			// children a + old: "old" is not in later answers, so accepting one deletes it. Their content follows the
+			// parent's template, so that a template edit is a real change for every child.
+			var v kit.M
+			_ = json.Unmarshal(validOld, &v)
+			if c.Cfg.Mode == 4 {
+				v["children"] = append(kit.L{c13First(c.Cfg.GenSel)}, kit.List(v, "children")...)
+			}
+			for _, ch := range kit.List(v, "children") {
+				kit.Field(ch.(kit.M), fmt.Sprint(kit.Get(hc.Parsed, "parent", "spec", "template", "v")), "spec", "tv")
+			}
+			b, _ := json.Marshal(v)
+			return 200, nil, b, nil
+		}
+		if c.Cfg.Mode == 4 && c.Cfg.Target == "sync" {
+			// the answer under test, with the waiting rollout's first child put in front of its children (when it
+			// has a children list at all)
+			var v map[string]interface{}
+			if json.Unmarshal([]byte(c.Body), &v) == nil {
+				if ch, ok := v["children"].([]interface{}); ok {
+					v["children"] = append([]interface{}{map[string]interface{}(c13First(c.Cfg.GenSel))}, ch...)
+					if b, err := json.Marshal(v); err == nil {
+						return c.Status, nil, b, nil
+					}
+				}
+			}
 		}
 		if c.Cfg.Target == "customize" {
 			return 200, nil, valid, nil
@@ -142,6 +176,18 @@ func c13Run(c c13Case) []mc.Finding {
 	switch c.Cfg.Mode {
 	case 2:
 		w.Sim.Edit(kit.Thing, "n1", "p", func(o map[string]interface{}) { kit.Field(o, "2", "spec", "template", "v") })
+	case 4:
+		// a rollout that WAITS: the first child was moved to the latest revision by a sync with a valid answer,
+		// and has gone missing since
+		w.Sim.Edit(kit.Thing, "n1", "p", func(o map[string]interface{}) { kit.Field(o, "2", "spec", "template", "v") })
+		w.DeliverAll()
+		if err, p, stack := w.syncKey("n1/p"); (err != nil && !c.Cfg.Strict) || p != nil {
+			bad("setup", "first rollout sync failed: %v %v %s", err, p, stack)
+			return f
+		}
+		w.DeliverAll()
+		// (the hook lists "first" first, so that is the child that was moved)
+		w.Sim.Remove(kit.Leaf, "n1", "first")
 	case 3:
 		w.Sim.Edit(kit.Thing, "n1", "p", func(o map[string]interface{}) { kit.Deleting(o) })
 	}
@@ -153,8 +199,20 @@ func c13Run(c c13Case) []mc.Finding {
 	w.Sim.ResetLog()
 	w.Hooks.Reset()
 	phase = 1
+	if c13Debug {
+		for _, o := range w.Sim.All(nil) {
+			fmt.Println("STORE", kit.JSON(o))
+		}
+	}
 	fp := vcache.TakeFingerprint()
 	err, p, stack := w.syncKey("n1/p")
+	if c13Debug {
+		fmt.Println("ERR", err, p)
+		for _, r := range w.Sim.Log {
+			fmt.Println("  ", r)
+		}
+		fmt.Println("PARENT", kit.JSON(w.Sim.Get(kit.Thing, "n1", "p")))
+	}
 	if p != nil {
 		c13Outcome = "panic"
 		site := "?"
@@ -311,7 +369,7 @@ func TestVerifC13(t *testing.T) {
 			r.Sample(kit.M{"cfg": fmt.Sprintf("%+v", c.Cfg), "what": c.What, "status": c.Status, "body": c.Body})
 		}
 	}
-	for mode := 0; mode < 4; mode++ {
+	for mode := 0; mode < 5; mode++ {
 		for gs := 0; gs < 2; gs++ {
 			for st := 0; st < 2; st++ {
 				cfg := c13Cfg{Mode: mode, GenSel: gs == 1, Strict: st == 1, Target: "sync"}
